@@ -313,3 +313,169 @@ def exec_pointdict(spec, env):
     o2 = rt.outcome(lambda: e.at(p))
     o3 = rt.outcome(lambda: bool(p == sm.Point(x=env["x"], y=env["y"])) and repr(p) == repr(sm.Point(x=env["x"], y=env["y"])))
     return [o1, o2, o3]
+
+
+# ------------------------------------------------------------------------------------------ construction (C15, C16, C12)
+
+def _is_int(v):
+    # plain interpreter: a real int; symbolic engine: the integer proxy
+    return (isinstance(v, int) and not isinstance(v, bool)) or type(v).__name__ == "SymInt"
+
+
+@concrete.register("param")
+def exec_param(spec, env):
+    """a parameterised constructor (or the ** operator) with an arbitrary numeric parameter
+    outs: [construction outcome (value = class name), stored parameter, stored parameter is an int]"""
+    sm, E = rt.ns()
+    x = E.Variable("x")
+    k = env["k"]
+    what = spec["what"]
+    box = {}
+
+    def make():
+        if what == "NthPower":
+            box["o"] = E.NthPower(x, k)
+        elif what == "NthRoot":
+            box["o"] = E.NthRoot(x, n=k)
+        elif what == "pow":
+            box["o"] = x ** k
+        elif what == "Exponential":
+            box["o"] = E.Exponential(x, base=k)
+        elif what == "Logarithm":
+            box["o"] = E.Logarithm(x, k)
+        elif what == "Constant":
+            box["o"] = E.Constant(k)
+        return type(box["o"]).__name__
+    o = rt.outcome(make)
+    outs = [o]
+    if o["kind"] == "value":
+        obj = box["o"]
+        attr = {"NthPower": "n", "NthRoot": "n", "pow": "n", "Exponential": "base", "Logarithm": "base", "Constant": "value"}[what]
+        outs.append(rt.outcome(lambda: getattr(obj, attr)))
+        outs.append({"kind": "value", "value": _is_int(getattr(obj, attr, None))})
+    else:
+        outs += [{"kind": "value", "value": None}, {"kind": "value", "value": None}]
+    return outs
+
+
+FOREIGN = ["None", "1", "2.5", "'x'", "()", "[]", "object()", "Point", "Partial", "True", "ExpressionClass"]
+
+
+def foreign(name, sm, E):
+    if name == "Point":
+        return sm.Point(x=1)
+    if name == "Partial":
+        return sm.Partial(E.Variable("x"), "x")
+    if name == "ExpressionClass":
+        return E.Variable
+    return eval(name, {"object": object})
+
+
+def operand_exprs(E, env):
+    x, y = E.Variable("x"), E.Variable("y")
+    c = E.Constant(env["c"]) if "c" in env else E.Constant(2)
+    return {"x": x, "y": y, "c": c, "zero": E.Constant(0), "one": E.Constant(1), "two": E.Constant(2), "three_f": E.Constant(3.0),
+            "neg": E.Negation(x), "sum": E.Add(x, y), "sum0": E.Add(), "prod": E.Multiply(x, y, c), "rec": E.Reciprocal(y),
+            "pw": E.NthPower(x, 2), "rt": E.NthRoot(y, 3), "ex": E.Exponential(x, 2), "lg": E.Logarithm(y), "sin": E.Sine(x),
+            "min": E.Minus(x, y), "div": E.Divide(x, c), "pwr": E.Power(x, y)}
+
+
+@concrete.register("operators")
+def exec_operators(spec, env):
+    """C15: operator syntax against the constructor-built twin (== both ways, same printed form, same class)"""
+    sm, E = rt.ns()
+    ops = operand_exprs(E, env)
+    a, b = ops[spec["a"]], ops[spec["b"]]
+    op = spec["op"]
+    built = {"neg": lambda: (-a, E.Negation(a)), "add": lambda: (a + b, E.Add(a, b)), "sub": lambda: (a - b, E.Minus(a, b)),
+             "mul": lambda: (a * b, E.Multiply(a, b)), "div": lambda: (a / b, E.Divide(a, b)), "pow": lambda: (a ** b, E.Power(a, b))}[op]
+    box = {}
+
+    def run():
+        box["r"], box["t"] = built()
+        return type(box["r"]).__name__
+    o = rt.outcome(run)
+    outs = [o]
+    if o["kind"] == "value":
+        r, t = box["r"], box["t"]
+        outs.append(rt.outcome(lambda: bool(r == t) and bool(t == r) and type(r) is type(t)))
+        outs.append(rt.outcome(lambda: repr(r)))
+        outs.append(rt.outcome(lambda: repr(t)))
+    else:
+        outs += [{"kind": "value", "value": None}] * 3
+    return outs
+
+
+@concrete.register("reject")
+def exec_reject(spec, env):
+    """C15/C16: non-expression operands are rejected with an exception (operators on either side, constructors at every position)"""
+    sm, E = rt.ns()
+    x, y = E.Variable("x"), E.Variable("y")
+    f = foreign(spec["foreign"], sm, E)
+    site = spec["site"]
+    sites = {
+        "x+f": lambda: x + f, "f+x": lambda: f + x, "x-f": lambda: x - f, "f-x": lambda: f - x, "x*f": lambda: x * f, "f*x": lambda: f * x,
+        "x/f": lambda: x / f, "f/x": lambda: f / x, "f**x": lambda: f ** x,
+        "Negation": lambda: E.Negation(f), "Reciprocal": lambda: E.Reciprocal(f), "Sine": lambda: E.Sine(f), "Cosine": lambda: E.Cosine(f),
+        "NthPower": lambda: E.NthPower(f, 2), "NthRoot": lambda: E.NthRoot(f, 2), "Exponential": lambda: E.Exponential(f), "Logarithm": lambda: E.Logarithm(f),
+        "Minus0": lambda: E.Minus(f, y), "Minus1": lambda: E.Minus(x, f), "Divide0": lambda: E.Divide(f, y), "Divide1": lambda: E.Divide(x, f),
+        "Power0": lambda: E.Power(f, y), "Power1": lambda: E.Power(x, f), "Add0": lambda: E.Add(f), "Add1": lambda: E.Add(x, f), "Add2": lambda: E.Add(x, y, f),
+        "Multiply0": lambda: E.Multiply(f, x), "Multiply1": lambda: E.Multiply(x, f, y), "Multiply2": lambda: E.Multiply(x, y, f),
+    }
+    return [rt.outcome(sites[site])]
+
+
+@concrete.register("powexp")
+def exec_powexp(spec, env):
+    """x ** e for a concrete exponent spelled in the spec (ints, integral/non-integral floats, non-positive, foreign)"""
+    sm, E = rt.ns()
+    x = E.Variable("x")
+    e = foreign(spec["exp"], sm, E) if isinstance(spec["exp"], str) else spec["exp"]
+    box = {}
+
+    def run():
+        box["r"] = x ** e
+        return type(box["r"]).__name__
+    o = rt.outcome(run)
+    outs = [o]
+    if o["kind"] == "value" and type(box["r"]).__name__ == "NthPower":
+        outs.append(rt.outcome(lambda: box["r"].n))
+        outs.append({"kind": "value", "value": _is_int(box["r"].n)})
+        outs.append(rt.outcome(lambda: bool(box["r"] == E.NthPower(x, int(e)))))
+    else:
+        outs += [{"kind": "value", "value": None}] * 3
+    return outs
+
+
+@concrete.register("names")
+def exec_names(spec, env):
+    """C14/C16: Variable(name) for an arbitrary string; every accepted name must work as a coordinate name on every entry point"""
+    sm, E = rt.ns()
+    name = env["name"]
+    outs = [rt.outcome(lambda: bool(E.Variable(name).name == name))]
+    if outs[0]["kind"] == "value":
+        other = "other_"
+        outs.append(rt.outcome(lambda: sm.Point(**{name: 3}).coordinate(name)))
+        outs.append(rt.outcome(lambda: E.Variable(name).at(5)))
+        outs.append(rt.outcome(lambda: sm.Derivative(E.NthPower(E.Variable(name), 2)).at(3)))
+        outs.append(rt.outcome(lambda: sm.Partial(E.Multiply(E.Variable(name), E.Variable(other)), name).at(sm.Point(**{name: 2, other: 4}))))
+        outs.append(rt.outcome(lambda: sm.LocatedDifferential(E.Multiply(E.Variable(name), E.Variable(other)), sm.Point(**{other: 4, name: 2})).component(E.Variable(name))))
+    return outs
+
+
+@concrete.register("barenumber")
+def exec_barenumber(spec, env):
+    """C14: a bare number in place of a point, and Derivative, are accepted exactly for expressions with <= 1 variable"""
+    sm, E = rt.ns()
+    e = rt.build(spec["d"], env, {})
+    a = env["a"]
+    outs = [rt.outcome(lambda: e.at(a)), rt.outcome(lambda: sm.Derivative(e).at(a)),
+            rt.outcome(lambda: sm.Derivative(e, compute_early=True) and 0)]
+    box = {}
+    o = rt.outcome(lambda: box.setdefault("n", e._normalize()) and 0)
+    if o["kind"] == "value":
+        outs.append(rt.outcome(lambda: box["n"].at(a)))
+        outs.append(rt.outcome(lambda: sm.Derivative(box["n"]) and 0))
+    else:
+        outs += [o, o]
+    return outs
